@@ -944,6 +944,8 @@ def o_c05(meta, ans, ctx):
     return None
 
 
+_NCORPUS = sum(1 for _ in open(os.path.join(VERIF, 'corpus', 'v1', 'corpus.jsonl')))
+
 SPECS = {
  'C17': C17Spec(o_c17, 'IS_ZERO_COPY and ZERO_COPY_MISMATCH of every type of the universe against the model constants; 15 probe programs obtained from a valid zero-copy definition by replacing one field (vector, string, boxed slice, option, array of vectors, deep structure, &\'static [u8], &\'static str, unbounded parameter), in structs, tuple structs and enums, dropping repr(C), repr(align) only, both attributes: each must be rejected by the ZeroCopy bound or the macro; a hand-written type marked zero-copy with IS_ZERO_COPY = false serialized alone and inside 17 containers: each attempt must panic with no byte of the value written; a control that a valid definition is written.'),
     'C05': C05Spec(o_c05, 'every derived type of the generated universe (definitions drawn from the grammar: named / tuple / unit structs, unit / tuple / struct variants, type / const / defaulted parameters, phantom parameters, bounds, where-clauses, zero / deep / no copy attribute, repr attributes, nesting of earlier definitions; several instantiations each): the program containing them must compile, the concrete DeserType (core::any::type_name) must be the documented substitution, the model derive of the definition must be the registered type, values round-trip in both modes; 7 accept programs for grammar features outside the generator (where-clause bounds, several bounds, defaulted parameters, visibilities, raw identifiers, doc comments, parameters passed to other derived types, unit / tuple structs) built and run.'),
@@ -954,7 +956,7 @@ SPECS = {
     'C11': CaseSpec(o_c11, 'every cut point k in [0,len) of the streams of generated values (streams up to 400 bytes in the quick tier); both modes; files cut at 8 fixed and 4 (16) random points loaded through load_full, mmap, load_mem, load_mmap.'),
     'C12': CaseSpec(o_c12, 'every base residue 0..127 (all for half of the types with aligned blocks in the quick tier, 16 residues for the rest) x generated values; block list taken from the real schema.'),
     'C03': CaseSpec(o_c03, 'offsets of every borrowed part of real ε-copy results (pointer minus buffer start, printed by Show on the ε types) against the offsets of the writer blocks in the model; allocator calls and bytes during deserialize_eps for each value and for the same value with every borrowed payload repeated x4 and x16 (x2, x8, x64 thorough).'),
-    'C06': CaseSpec(o_c06, 'golden corpus (333 files written by earlier builds for the fixed corpus universe: 227 at claim time, 106 appended with the later stress definitions): re-serialization must reproduce the stored bytes, both deserializers must return the stored value, hash words must be the stored ones; plus bytes / hash feeds / digests of every generated type and value against the independent Lean encoder and XXH3 port.'),
+    'C06': CaseSpec(o_c06, 'golden corpus (NCORPUS files written by earlier builds for the fixed corpus universe: 227 at claim time, the others appended with the later stress definitions): re-serialization must reproduce the stored bytes, both deserializers must return the stored value, hash words must be the stored ones; plus bytes / hash feeds / digests of every generated type and value against the independent Lean encoder and XXH3 port.'),
     'C09': C09Spec(o_c09, 'failing loads (8 truncation points, corrupted magic / type hash, a foreign type, garbage) and succeeding loads, repeated 12 (40) times per loader under a counting global allocator and a /proc/self/maps count; 9 probe programs (one per access path) compiled against the working tree.'),
     'C04': CaseSpec(o_c04, 'type and alignment feeds (recorded from the real type_hash / align_hash with a recording Hasher) and digests of every type of the universe, which contains for every definition without type parameters its near-miss mutants (field renamed, fields swapped, field retyped to a same-size type, copy kind toggled, repr/align changed, const renamed / value changed, variant renamed / reordered; vec / boxed slice / array / tuple variations); bytes of each type deserialized as its mutants and as other types (all near-miss pairs, 6000 sampled ordered pairs in the quick tier, all pairs in the thorough tier), both modes.'),
     'C08': C08Spec(o_c08, 'store + load_full / load_mem / load_mmap / mmap of generated values (all 8 flag sets for a quarter of the cases in the quick tier), file lengths of every residue modulo 64 (32 in the quick tier), region range through the hook, tail bytes read back, the case moved, boxed, read from 4 threads and sent to another thread; the load_full / load_mem cases again with the crate built without the mmap feature.'),
@@ -965,3 +967,4 @@ SPECS = {
     'C19': CaseSpec(o_c19, 'every history of length <= 3 (quick; <= 4 thorough) over an alphabet of 12 (14) operations on AlignedCursor<A16>, plus long random histories for A16/A32/A64; the same history on std::io::Cursor<Vec<u8>>; both models tied.'),
     'C15': CaseSpec(o_c15, 'every tag position of every generated value (found through the real schema): byte tags set to 11 boundary values or all 256, enum tag words set to boundary values; both modes.'),
 }
+SPECS['C06'].rule = SPECS['C06'].rule.replace('NCORPUS', str(_NCORPUS))
